@@ -222,6 +222,7 @@ type World struct {
 	tw            *tracefmt.Writer
 	useK8sPlugins bool
 	desync        int
+	touch         int
 	calllog       []map[string]any
 }
 
@@ -431,8 +432,12 @@ func (w *World) funcs() interceptor.Funcs {
 					return e, true
 				})
 				// play the reservation pod: it reports the GPU index it was given
-				if kind == "ResPod" && nameSel != "" {
-					w.annotateReservation(nameSel)
+				if kind == "ResPod" && nameSel != "" && w.annotateReservation(nameSel) == resMissing {
+					// the watched reservation pod is gone: the real wait would end with the allocation timeout, which
+					// takes the same path as a watch error (unknown index -> delete the reservation pod -> error)
+					raw.Stop()
+					wi = nil
+					return errors.New("verif: reservation pod is gone, the wait for its GPU index times out")
 				}
 				return nil
 			})
@@ -481,23 +486,35 @@ func (w *World) bindSubresource(ctx context.Context, obj client.Object, subObj c
 }
 
 // annotateReservation plays the reservation pod / device plugin: a fresh device index per pod.
-func (w *World) annotateReservation(name string) {
+func (w *World) annotateReservation(name string) int {
 	pod := &v1.Pod{}
 	if err := w.base.Get(context.Background(), client.ObjectKey{Namespace: resNS, Name: name}, pod); err != nil {
-		return
-	}
-	if pod.Annotations != nil && pod.Annotations[idxAnn] != "" {
-		return
+		return resMissing
 	}
 	if pod.Annotations == nil {
 		pod.Annotations = map[string]string{}
 	}
-	pod.Annotations[idxAnn] = strconv.Itoa(w.nidx)
-	w.nidx++
+	st := resAnnotated
+	if pod.Annotations[idxAnn] != "" {
+		// already reported: a real watch starts with the current object; the fake one does not, so touch the pod
+		st = resAlready
+		w.touch++
+		pod.Annotations["verif/touch"] = strconv.Itoa(w.touch)
+	} else {
+		pod.Annotations[idxAnn] = strconv.Itoa(w.nidx)
+		w.nidx++
+	}
 	if err := w.base.Update(context.Background(), pod); err != nil {
 		fatal("annotate reservation pod: %v", err)
 	}
+	return st
 }
+
+const (
+	resAnnotated = iota
+	resAlready
+	resMissing
+)
 
 type nopRecorder struct{}
 
